@@ -456,6 +456,26 @@ def batch_ctc_listings(seed, count):
     return res
 
 
+def batch_ctc_listing_family(lo, hi):
+    """every tree of the restricted depth-2 family (and the OR-of-OR variants), each alone in a model."""
+    from . import c18 as _c18
+    names = ['F0', 'F1', 'F2']
+    fam = [t for t in _c18.family_depth2_restricted(names) if isinstance(t, tuple)]
+    fam += [('OR', ('OR', a, b), ('NOT', c)) for a in names for b in names for c in names] + [('OR', ('NOT', c), ('OR', a, b)) for a in names for b in names for c in names]
+    res = {'instances': 0, 'nontrivial': 0, 'violations': [], 'native_runs': 0}
+    for t in fam[lo:hi]:
+        res['instances'] += 1
+        res['native_runs'] += 1
+        res['nontrivial'] += 1
+        bad = replay_ctc_listing([t])
+        if bad:
+            res['violations'].append({'label': 'ctc-listing', 'detail': bad[0], 'replay_func': 'replay_ctc_listing', 'replay_args': [[t]]})
+            if len(res['violations']) >= 4:
+                return res
+    res['sample'] = {'family': 'depth-2 restricted + OR-of-OR with a negated literal', 'size': len(fam)}
+    return res
+
+
 def _totuple(t):
     if isinstance(t, list):
         return tuple(_totuple(x) for x in t)
@@ -606,7 +626,7 @@ def conditions(tier, seed):
 def batches(tier, seed):
     N = 4 if tier == 'quick' else 5
     return [('batch_e3', []), ('batch_ctc_listings', [seed, 150 if tier == 'quick' else 1500]),
-            ('batch_native_grid', [N]), ('batch_edit_queries', [N])]
+            ('batch_native_grid', [N]), ('batch_edit_queries', [N])] + [('batch_ctc_listing_family', [lo, lo + 1100]) for lo in range(0, 4400, 1100)]
 
 
 WITNESSES = {'relation-0-0-single-child': witness_rel00}
